@@ -18,22 +18,31 @@ From GS Require Import Num Loops.
 Import ListNotations.
 
 (* ------------------------------------------------------------------ positions *)
-(* A position tuple is identified by (base, jit): different bases are clearly different point sets,
-   equal base with different jit differ by less than the np.allclose tolerance used by Field._pos_equal
-   (rtol 1e-5, atol 1e-8).  _pos_equal therefore sees only the base. *)
-Record Pos := mkPos { p_base : nat; p_jit : nat }.
-Definition pos_close (a b : Pos) : bool := p_base a =? p_base b.
-Definition pos0 : Pos := mkPos 0 0.
+(* The target of a kriging run is identified by (base, jit, ext): different bases are clearly different point sets;
+   equal base with different jit differ by less than the np.allclose tolerance (rtol 1e-5, atol 1e-8) that
+   Field._pos_equal used before the exact-comparison commit; ext identifies the external-drift values passed for the
+   target points with the call (ext_drift=...; 0 when none).  _pos_equal never sees ext. *)
+Record Pos := mkPos { p_base : nat; p_jit : nat; p_ext : nat }.
+Definition pos0 : Pos := mkPos 0 0 0.
+Definition set_ext (q : Pos) (x : nat) : Pos := mkPos (p_base q) (p_jit q) x.
 
 (* f_pername: the reference of bf42345 is kept PER raw-kriging store name (a dict); false = one shared slot.
    f_condcopy: Krige keeps copies of the conditioning arrays (cond_pos, cond_val: krige/tools.set_condition;
    ext_drift, cond_err: the copy commit); false = views of the caller's arrays. *)
-Record Fix := mkFix { f_inval : bool; f_copy : bool; f_token : bool; f_pername : bool; f_condcopy : bool }.
-Definition repaired : Fix := mkFix true true true true true.
-Definition first_repair : Fix := mkFix true false false true true.
-Definition pinned : Fix := mkFix false false false true true.
-Definition shared_ref : Fix := mkFix true true true false true.     (* one reference slot for all store names *)
-Definition aliased_cond : Fix := mkFix true true true true false.  (* conditioning arrays are views *)
+(* f_exactpos: Field._pos_equal compares exactly (np.array_equal); false = np.allclose (sees only the base).
+   f_exttoken: the reuse test of CondSRF also compares the external drift given with the call. *)
+Record Fix := mkFix { f_inval : bool; f_copy : bool; f_token : bool; f_pername : bool; f_condcopy : bool;
+                      f_exactpos : bool; f_exttoken : bool }.
+Definition repaired : Fix := mkFix true true true true true true true.
+Definition first_repair : Fix := mkFix true false false true true false false.
+Definition pinned : Fix := mkFix false false false true true false false.
+Definition shared_ref : Fix := mkFix true true true false true true true.     (* one reference slot for all store names *)
+Definition aliased_cond : Fix := mkFix true true true true false true true.  (* conditioning arrays are views *)
+Definition allclose_pos : Fix := mkFix true true true true true false true.  (* _pos_equal with np.allclose *)
+Definition no_ext_token : Fix := mkFix true true true true true true false.  (* reuse test ignores the call's ext_drift *)
+(* Field._pos_equal *)
+Definition pos_close (fx : Fix) (a b : Pos) : bool :=
+  (p_base a =? p_base b) && (if f_exactpos fx then p_jit a =? p_jit b else true).
 
 (* what a raw kriging field / kriging variance was computed from *)
 Record KDesc := mkKDesc {
@@ -62,9 +71,10 @@ Record St := mkSt {
 
 Inductive CondKind := NewVals | NewPos | Refresh.
 Inductive Op :=
-| Call (p : option (Pos * bool)) (sd : option nat) (srk : bool) (ns : nat)
-                                     (* csrf(pos, seed, mesh_type, store=[name, raw name, raw kriging name or False])
-                                        with the names of name set ns; srk = false: the raw kriging field is not stored *)
+| Call (p : option (Pos * bool)) (sd : option nat) (srk : bool) (ns : nat) (xd : nat)
+                                     (* csrf(pos, seed, mesh_type, store=[name, raw name, raw kriging name or False],
+                                        ext_drift=<values xd>) with the names of name set ns; srk = false: the raw
+                                        kriging field is not stored; the ext component of p is ignored, xd counts *)
 | SetPos (p : Pos) (m : bool)                        (* csrf.set_pos(pos, mesh_type) *)
 | SetCond (k : CondKind)                             (* csrf.krige.set_condition(...) *)
 | ModelInplace                                       (* csrf.model.len_scale = ... (no refresh) *)
@@ -102,16 +112,16 @@ Definition upd {A} (f : nat -> A) (n : nat) (v : A) : nat -> A := fun k => if k 
 
 (* Field.set_pos as overridden by CondSRF.set_pos: new pos and mesh type are stored; all stored fields of
    CondSRF and of Krige are deleted when the mesh type changed or not _pos_equal(old, new) *)
-Definition pos_changed (s : St) (p : Pos) (m : bool) : bool :=
-  negb (Bool.eqb (st_mesh s) m) || negb (match st_pos s with Some q => pos_close q p | None => false end).
-Definition do_set_pos (s : St) (p : Pos) (m : bool) : St * bool :=
-  let del := pos_changed s p m in
+Definition pos_changed (fx : Fix) (s : St) (p : Pos) (m : bool) : bool :=
+  negb (Bool.eqb (st_mesh s) m) || negb (match st_pos s with Some q => pos_close fx q p | None => false end).
+Definition do_set_pos (fx : Fix) (s : St) (p : Pos) (m : bool) : St * bool :=
+  let del := pos_changed fx s p m in
   (mkSt (Some p) m (if del then [] else st_cnames s) (if del then [] else st_knames s)
         (st_rk s) (st_kv s) (st_cond s) (st_model s) (st_matmodel s) (st_mtn s) (st_next s) (st_seed s)
         (st_kvid s) (st_ref s), del).
 (* Field.set_pos on the Krige object itself (direct krige call): only Krige's fields are deleted *)
-Definition krige_set_pos (s : St) (p : Pos) (m : bool) : St :=
-  mkSt (Some p) m (st_cnames s) (if pos_changed s p m then [] else st_knames s)
+Definition krige_set_pos (fx : Fix) (s : St) (p : Pos) (m : bool) : St :=
+  mkSt (Some p) m (st_cnames s) (if pos_changed fx s p m then [] else st_knames s)
        (st_rk s) (st_kv s) (st_cond s) (st_model s) (st_matmodel s) (st_mtn s) (st_next s) (st_seed s)
        (st_kvid s) (st_ref s).
 
@@ -126,7 +136,8 @@ Definition with_pos (s : St) (q : Pos) : St :=
 Definition slot (fx : Fix) (ns : nat) : nat := if f_pername fx then ns else 0.
 Definition token_ok (fx : Fix) (s : St) (ns : nat) : bool :=
   match st_ref s (slot fx ns) with
-  | Some (id, m, rp) => (st_kvid s =? id) && Bool.eqb (st_mesh s) m && pos_close (cur_pos s) rp
+  | Some (id, m, rp) => (st_kvid s =? id) && Bool.eqb (st_mesh s) m && pos_close fx (cur_pos s) rp
+                        && (if f_exttoken fx then p_ext (cur_pos s) =? p_ext rp else true)
   | None => false
   end.
 
@@ -155,23 +166,26 @@ Definition finish_call (fx : Fix) (s2 : St) (del srk : bool) (ns : nat) : St * R
          else upd (st_ref s2) (slot fx ns) (Some (st_next s2, st_mesh s2, cur_pos s2))),
    RField (mkOut reuse k v (st_model s2) (st_seed s2) (st_mtn s2))).
 
-Definition do_call (fx : Fix) (s : St) (p : option (Pos * bool)) (sd : option nat) (srk : bool) (ns : nat) : St * Res :=
+(* the external drift given with the call belongs to the target of this call *)
+Definition with_ext (s : St) (xd : nat) : St :=
+  match st_pos s with Some q => with_pos s (set_ext q xd) | None => s end.
+Definition do_call (fx : Fix) (s : St) (p : option (Pos * bool)) (sd : option nat) (srk : bool) (ns xd : nat) : St * Res :=
   (* self.generator.update(self.model, seed) — happens before pre_pos may raise *)
   let s1 := match sd with Some x => with_seed s x | None => s end in
   (* self.pre_pos(pos, mesh_type, info=True) *)
   match p with
   | None => match st_pos s1 with
             | None => (s1, RErr)                         (* ValueError: no position tuple present *)
-            | Some _ => finish_call fx s1 false srk ns
+            | Some _ => finish_call fx (with_ext s1 xd) false srk ns
             end
-  | Some (q, m) => let '(s2, del) := do_set_pos s1 q m in finish_call fx s2 del srk ns
+  | Some (q, m) => let '(s2, del) := do_set_pos fx s1 q m in finish_call fx (with_ext s2 xd) del srk ns
   end.
 
 (* Krige.__call__ called directly (default store): field, then krige_var are stored in Krige *)
-Definition do_krige_call (s : St) (p : option (Pos * bool)) : St * Res :=
+Definition do_krige_call (fx : Fix) (s : St) (p : option (Pos * bool)) : St * Res :=
   let pre := match p with
              | None => match st_pos s with None => None | Some _ => Some s end
-             | Some (q, m) => Some (krige_set_pos s q m)
+             | Some (q, m) => Some (krige_set_pos fx s q m)
              end in
   match pre with
   | None => (s, RErr)
@@ -213,18 +227,18 @@ Definition do_mutate_cond (fx : Fix) (s : St) : St :=
 
 Definition step (fx : Fix) (s : St) (op : Op) : St * Res :=
   match op with
-  | Call p sd srk ns => do_call fx s p sd srk ns
+  | Call p sd srk ns xd => do_call fx s p sd srk ns xd
   (* Krige.model setter with the object it already holds: 2a36b2f = set_condition(); before = nothing *)
   | ReassignModel => ((if f_inval fx then do_set_cond fx s Refresh else s), RNone)
   | MutateCond => (do_mutate_cond fx s, RNone)
-  | SetPos p m => (fst (do_set_pos s p m), RNone)
+  | SetPos p m => (fst (do_set_pos fx s p m), RNone)
   | SetCond k => (do_set_cond fx s k, RNone)
   | ModelInplace => (do_model_inplace s, RNone)
   | SetModel => (do_set_model fx s, RNone)
   | SetMean | SetTrend | SetNorm => (do_set_mtn fx s, RNone)
   | SetGen sd => (with_seed s sd, RNone)
   | MutatePos q => (do_mutate_pos fx s q, RNone)
-  | KrigeCall p => do_krige_call s p
+  | KrigeCall p => do_krige_call fx s p
   | AssignPos q => (with_pos s q, RNone)
   end.
 
@@ -235,7 +249,7 @@ Definition refreshed (s : St) : Prop := st_matmodel s = st_model s.
 
 (* what a freshly built object returns for the current settings, position and seed *)
 Definition fresh_result (s : St) : Res :=
-  snd (step repaired (fresh_of s) (Call (Some (cur_pos s, st_mesh s)) None true 0)).
+  snd (step repaired (fresh_of s) (Call (Some (cur_pos s, st_mesh s)) None true 0 (p_ext (cur_pos s)))).
 
 (* two results describe the same field (the branch flag is not part of the field) *)
 Definition same_field (a b : Res) : Prop :=
@@ -245,29 +259,19 @@ Definition same_field (a b : Res) : Prop :=
   | _, _ => False
   end.
 
-(* no position of the history hides inside the np.allclose window of another one: all positions have jit 0,
-   so two positions are _pos_equal only if they are identical *)
-Definition op_pos (op : Op) : option Pos :=
-  match op with
-  | Call (Some (q, _)) _ _ _ | SetPos q _ | MutatePos q | KrigeCall (Some (q, _)) | AssignPos q => Some q
-  | _ => None
-  end.
-Definition clean_op (op : Op) : Prop := match op_pos op with Some q => p_jit q = 0 | None => True end.
-Definition clean (ops : list Op) : Prop := Forall clean_op ops.
-
 (* ------------------------------------------------------------------ executable trace (correspondence) *)
 Definition zb (b : bool) : Z := if b then 1%Z else 0%Z.
 Definition zn (n : nat) : Z := Z.of_nat n.
 Definition enc_names (l : list nat) : Z := fold_left (fun acc n => (acc * 16 + zn n + 1)%Z) l 0%Z.
 Definition enc_desc (d : KDesc) : list Z :=
-  [zn (p_base (k_pos d)); zn (p_jit (k_pos d)); zb (k_mesh d); zn (k_cond d); zn (k_matmodel d);
+  [zn (p_base (k_pos d)); zn (p_jit (k_pos d)); zn (p_ext (k_pos d)); zb (k_mesh d); zn (k_cond d); zn (k_matmodel d);
    zn (k_model d); zn (k_mtn d)].
 Definition enc_out (o : Out) : list Z :=
   [zb (o_reuse o)] ++ enc_desc (o_k o) ++ enc_desc (o_v o) ++ [zn (o_gmodel o); zn (o_seed o); zn (o_post o)].
 Definition enc_res (r : Res) : list Z :=
   match r with
-  | RNone => 0%Z :: repeat 0%Z 18
-  | RErr => 1%Z :: repeat 0%Z 18
+  | RNone => 0%Z :: repeat 0%Z 20
+  | RErr => 1%Z :: repeat 0%Z 20
   | RField o => 2%Z :: enc_out o
   end.
 (* one row per operation: result kind + output, then the state after the operation *)
@@ -275,13 +279,13 @@ Definition enc_row (s : St) (r : Res) : list Z :=
   enc_res r ++ [enc_names (st_cnames s); enc_names (st_knames s);
                 match st_pos s with Some _ => 1%Z | None => 0%Z end] ++ enc_desc (cur_desc s) ++ [zn (st_seed s)].
 
-(* row = [code; haspos; base; jit; mesh; seed+1; nosave; chunk option (not part of the model); name set] *)
+(* row = [code; haspos; base; jit; mesh; seed+1; nosave; chunk option (not part of the model); name set; ext drift id] *)
 Definition dec_op (r : list Z) : Op :=
   let g i := Z.to_nat (nth i r 0%Z) in
-  let q := mkPos (g 2) (g 3) in
+  let q := mkPos (g 2) (g 3) (g 9) in
   let ps := if (g 1 =? 0) then None else Some (q, negb (g 4 =? 0)) in
   match g 0 with
-  | 0 => Call ps (if g 5 =? 0 then None else Some (g 5 - 1)) (g 6 =? 0) (g 8)
+  | 0 => Call ps (if g 5 =? 0 then None else Some (g 5 - 1)) (g 6 =? 0) (g 8) (g 9)
   | 1 => SetPos q (negb (g 4 =? 0))
   | 2 => SetCond NewVals | 3 => SetCond NewPos | 4 => SetCond Refresh
   | 5 => ModelInplace | 6 => SetModel | 7 => SetMean | 8 => SetTrend | 9 => SetNorm
@@ -298,8 +302,8 @@ Fixpoint trace_from (fx : Fix) (s : St) (ops : list Op) : list (list Z) :=
   | [] => []
   | op :: r => let '(s', res) := step fx s op in enc_row s' res :: trace_from fx s' r
   end.
-Definition trace (f1 f2 f3 f4 f5 : bool) (sd0 : nat) (rows : list (list Z)) : list (list Z) :=
-  trace_from (mkFix f1 f2 f3 f4 f5) (init sd0) (map dec_op rows).
+Definition trace (f1 f2 f3 f4 f5 f6 f7 : bool) (sd0 : nat) (rows : list (list Z)) : list (list Z) :=
+  trace_from (mkFix f1 f2 f3 f4 f5 f6 f7) (init sd0) (map dec_op rows).
 
 (* ------------------------------------------------------------------ Part 2: the conditioning formula *)
 Section Formula.
